@@ -370,6 +370,11 @@ CORPUS = [
                         "w11": L.handmade_weighted([x, y, x + 1, y + 1, x * 2, y * 2, x - 1, y - 1, x * x, y * y, x + y]),
                         "st11": L.sum(L.stack([x, y, x + 1, y + 1, x * 2, y * 2, x - 1, y - 1, x * x, y * y, x + y]), axis=0)},
        tags=("handmade",)),
+    _P("creation_dtypes", [ph("w", (2, 2), F32)],
+       # constant arrays of non-default dtypes (values 0 / 1 and others), alone and combined
+       lambda L, w: {"z32": L.zeros((2, 2), dtype=F32), "o32": L.ones((3,), dtype=F32) * 16777216 + 1, "f32": L.full((2,), 1.0, dtype=F32),
+                     "zw": L.zeros((2, 2), dtype=F32) + w, "o16": L.ones((2,), dtype=np.float16), "oi": L.ones((2,), dtype=I64) * 3,
+                     "zc": L.zeros((2,), dtype=C128), "f7": L.full((2,), 7.5, dtype=F32), "ow": L.ones((2, 2), dtype=F32) * w}),
     _P("pad", [ph("x", (2, 3)), ph("v", (3,))],
        lambda L, x, v: {"p1": L.pad(v, 1), "p2": L.pad(x, ((1, 0), (0, 2))), "p3": L.pad(v, (2, 1), constant_values=5.0)}),
     _P("sharing", [ph("x", (3, 3)), ph("y", (3, 3))],
@@ -450,6 +455,10 @@ CORPUS = [
        tags=("intarith",),
        fixed_data={"u": np.array([0, 1, 4000000000, 4294967295], dtype=np.uint32),
                    "i": np.array([-1, -2000000000, 2000000000, 7], dtype=I32), "b": np.array([-128, 127, -1, 5], dtype=np.int8)}),
+    _P("mixed_dtype_join", [ph("i", (3,), I32), ph("x", (2,)), ph("f", (3,), F32), ph("m", (2, 3), I64), ph("y", (2, 3))],
+       # pieces of different dtypes, the narrower one first: the joined array has the promoted dtype
+       lambda L, i, x, f, m, y: {"c": L.concatenate([i, x]), "h": L.concatenate([i, x]) * 0.5, "cf": L.concatenate([f, x, i]),
+                                 "s": L.stack([i, f]), "s2": L.stack([m, y], axis=1) + 1, "cm": L.concatenate([m, y], axis=1)}),
     _P("neg_abs_pow", [ph("x", (3,)), ph("m", (3,), I64)],
        lambda L, x, m: {"a": -x, "b": abs(x) ** 0.5, "c": (-m) ** 2, "e": x ** 2 - m}),
 ]
